@@ -243,6 +243,18 @@ pub fn yaml_seeds(quick: bool) -> Vec<Vec<u8>> {
     for f in fixed {
         out.push(f.to_string());
     }
+    // long tokens around the 16/32/64/96-byte chunk sizes of the vectorised scanners (anchor / alias / tag names,
+    // quoted and plain scalars, comments), followed by `: b`; their truncations put every prefix — in particular
+    // `name:` with nothing after the colon — at the very end of the input, where a look-ahead `input[pos + 1]` has
+    // nothing to look at
+    let lens: &[usize] = if quick { &[15, 16, 31, 32, 63, 64, 95] } else { &[14, 15, 16, 17, 30, 31, 32, 33, 34, 62, 63, 64, 65, 66, 94, 95, 96, 97, 127, 128] };
+    for &n in lens {
+        let name = "a".repeat(n);
+        for pre in ["&", "*", "k: &", "- *", "k: !", "k: \"", "k: '", "# ", "k: "] {
+            let close = match pre { "k: \"" => "\"", "k: '" => "'", _ => "" };
+            out.push(format!("{pre}{name}{close}: b\n"));
+        }
+    }
     if !quick {
         let scal = ["1", "x", "\"q\"", "'s'", "null", "~", "true", "|\n    t\n", ">-\n    t\n", "&a v", "*a", "!t v", "[1]", "{k: v}", ""];
         for s in scal {
